@@ -1,15 +1,374 @@
 /-
-  HotXL.Model.Fn.Math — builtin functions of this family (filled in as the family is modelled).
-  `table` maps a registered function name to its model; a registered name with no entry
-  here is reported by the evaluator as `Value.other "unmodelled-builtin"`.
+  HotXL.Model.Fn.Math — model of the real-valued builtins of hotxlfp/formulas/mathtrig.py:
+  ABS, ACOS, ACOSH, ACOT, ACOTH, SIN, SINH, ASIN, ASINH, COS, COSH, COT, TAN, TANH, ATAN,
+  ATAN2, ATANH, SQRT, EXP, LN, LOG, LOG10, PI, POWER, RADIANS, DEGREES, RAND, RANDBETWEEN.
+
+  The functions are written ONCE, generically over a number type `α` equipped with the
+  operations of `ElemOps α` (the field operations and the PARTIAL elementary functions of
+  Python's `math` module; `none` = the library call raises ValueError / ZeroDivisionError /
+  OverflowError, which `Parser.call_function` turns into `#ERROR!`).  Two instances exist:
+
+  * `floatOps : ElemOps Float` (this file; executable; Lean's `Float.sin`, `Float.log`, … are the
+    same libm functions CPython calls, with CPython's own domain / overflow checks written
+    out) — used only by the driver (`HotXL/Driver/Math.lean`) for the correspondence check;
+  * `realOps : ElemOps ℝ` (`HotXL/Lemmas/RealOps.lean`; noncomputable; Mathlib's `Real.sin`,
+    `Real.log`, … with the mathematical domains) — what the theorems of `Props/C16.lean` are about.
+
+  Hand-written compositions (real content of the identity theorems): ACOT = atan(1/x) (π/2 at 0),
+  ACOTH = ½·log((x+1)/(x−1)), COT = cos/sin, EXP = e ** x, LOG = log x / log b,
+  RADIANS = x·(π/180), DEGREES = x·180/π, ATAN2(x, y) = atan2(y, x) with #DIV/0! at the origin,
+  POWER with its NaN test; the other functions call the `math` function of the same name.
+
+  The exact-rational `table` used by `eval` contains only what is exact: ABS.  Everything else
+  is reached through the driver op `math NAME value…`.
 -/
 import HotXL.Model.Fn.Common
 
 namespace HotXL.Fn.Math
-open HotXL
+open HotXL HotXL.Ops HotXL.Fn
 
-open HotXL.Fn
+/-! ## the operations the functions are composed from -/
 
-def table : List (String × Builtin) := []
+/-- field operations and partial elementary functions (`none` = the Python call raises) -/
+structure ElemOps (α : Type) where
+  /-- `float(q)`: the number denoted by a Python float / by decimal text -/
+  ofRat : Rat → α
+  /-- `float(i)` for a Python int (`none` = OverflowError: int too large to convert to float) -/
+  ofInt : Int → Option α
+  add : α → α → α
+  sub : α → α → α
+  mul : α → α → α
+  neg : α → α
+  abs : α → α
+  /-- `x / y` (`none` = ZeroDivisionError) -/
+  div : α → α → Option α
+  /-- `x == 0` -/
+  isZero : α → Bool
+  /-- `math.isnan(x)` -/
+  isNaN : α → Bool
+  /-- `math.pi` -/
+  pi : α
+  /-- `math.e` -/
+  e : α
+  sqrt : α → Option α
+  log : α → Option α
+  exp : α → Option α
+  sin : α → Option α
+  cos : α → Option α
+  tan : α → Option α
+  asin : α → Option α
+  acos : α → Option α
+  atan : α → Option α
+  sinh : α → Option α
+  cosh : α → Option α
+  tanh : α → Option α
+  asinh : α → Option α
+  acosh : α → Option α
+  atanh : α → Option α
+  /-- `math.atan2(y, x)` -/
+  atan2 : α → α → Option α
+  /-- `x ** y` on floats (`none` = ZeroDivisionError, OverflowError, or a complex result) -/
+  pow : α → α → Option α
+
+section generic
+variable {α : Type} (O : ElemOps α)
+
+/-- a raising library call becomes `#ERROR!` (`error.from_message` default) -/
+def lift (r : Option α) : Except Err α :=
+  match r with
+  | some x => .ok x
+  | none => .error .error
+
+/-! ## the functions on numbers, as mathtrig.py composes them
+
+  Result: `.ok x` = the number `x` is returned; `.error e` = the call's value is the error
+  `e` (returned by the function, or raised and converted by `call_function`). -/
+
+/-- `ACOT`: `math.pi / 2` at 0, else `math.atan(1 / number)` -/
+def acot (x : α) : Option α :=
+  if O.isZero x then O.div O.pi (O.ofRat 2)
+  else do
+    let r ← O.div (O.ofRat 1) x
+    O.atan r
+
+/-- `ACOTH`: `0.5 * math.log((number + 1) / (number - 1))` -/
+def acoth (x : α) : Option α := do
+  let q ← O.div (O.add x (O.ofRat 1)) (O.sub x (O.ofRat 1))
+  let l ← O.log q
+  pure (O.mul (O.ofRat (1 / 2)) l)
+
+/-- `COT`: `math.cos(number) / math.sin(number)` -/
+def cot (x : α) : Option α := do
+  let c ← O.cos x
+  let s ← O.sin x
+  O.div c s
+
+/-- `EXP`: `math.e ** number` -/
+def expE (x : α) : Option α := O.pow O.e x
+
+/-- `LOG`: `math.log(number, base)` = `log(number) / log(base)` -/
+def logB (x b : α) : Option α := do
+  let n ← O.log x
+  let d ← O.log b
+  O.div n d
+
+/-- `ATAN2(x_num, y_num)`: `#DIV/0!` at the origin, else `math.atan2(y_num, x_num)` -/
+def atan2' (x y : α) : Except Err α :=
+  if O.isZero x && O.isZero y then .error .div0 else lift (O.atan2 y x)
+
+/-- `POWER`: `number ** power`, `#NUM!` if the result is a NaN -/
+def power (x y : α) : Except Err α :=
+  match O.pow x y with
+  | none => .error .error
+  | some r => if O.isNaN r then .error .num else .ok r
+
+/-- `RADIANS`: `number * (math.pi / 180)` -/
+def radians (x : α) : Option α := do
+  let d ← O.div O.pi (O.ofRat 180)
+  pure (O.mul x d)
+
+/-- `DEGREES`: `number * 180 / math.pi` -/
+def degrees (x : α) : Option α := O.div (O.mul x (O.ofRat 180)) O.pi
+
+/-! ## coercion of the arguments (`utils.parse_number`, then the conversion to a float) -/
+
+/-- the float a Python number is converted to by the `math` functions and by mixed arithmetic -/
+def ofNum (n : Num) : Option α :=
+  match n with
+  | .int i => O.ofInt i
+  | .flt q => some (O.ofRat q)
+
+/-- one-argument shape: `number = parse_number(number); if error: return it; return f(number)` -/
+def un (f : α → Option α) : List Value → Except Err α
+  | [v] =>
+    match parseNumber v with
+    | .error e => .error e
+    | .ok n =>
+      match ofNum O n with
+      | none => .error .error
+      | some x => lift (f x)
+  | _ => .error .error
+
+/-- two-argument shape of LOG / POWER: both parsed, `#VALUE!` if any is an error -/
+def bin (f : α → α → Except Err α) (a b : Value) : Except Err α :=
+  match parseNumber a, parseNumber b with
+  | .ok m, .ok n =>
+    match ofNum O m, ofNum O n with
+    | some x, some y => f x y
+    | _, _ => .error .error
+  | _, _ => .error .value
+
+def ABSf : List Value → Except Err α := un O (fun x => some (O.abs x))
+def ACOS : List Value → Except Err α := un O O.acos
+def ACOSH : List Value → Except Err α := un O O.acosh
+def ACOT : List Value → Except Err α := un O (acot O)
+def ACOTH : List Value → Except Err α := un O (acoth O)
+def SIN : List Value → Except Err α := un O O.sin
+def SINH : List Value → Except Err α := un O O.sinh
+def ASIN : List Value → Except Err α := un O O.asin
+def ASINH : List Value → Except Err α := un O O.asinh
+def COS : List Value → Except Err α := un O O.cos
+def COSH : List Value → Except Err α := un O O.cosh
+def COT : List Value → Except Err α := un O (cot O)
+def TAN : List Value → Except Err α := un O O.tan
+def TANH : List Value → Except Err α := un O O.tanh
+def ATAN : List Value → Except Err α := un O O.atan
+def ATANH : List Value → Except Err α := un O O.atanh
+def SQRT : List Value → Except Err α := un O O.sqrt
+def EXP : List Value → Except Err α := un O (expE O)
+def LN : List Value → Except Err α := un O O.log
+def RADIANS : List Value → Except Err α := un O (radians O)
+def DEGREES : List Value → Except Err α := un O (degrees O)
+
+/-- `ATAN2(x_num, y_num)`: the first argument's error is returned first, then the second's -/
+def ATAN2 : List Value → Except Err α
+  | [a, b] =>
+    match parseNumber a with
+    | .error e => .error e
+    | .ok m =>
+      match parseNumber b with
+      | .error e => .error e
+      | .ok n =>
+        match ofNum O m, ofNum O n with
+        | some x, some y => atan2' O x y
+        | _, _ => .error .error
+  | _ => .error .error
+
+/-- `LOG(number, base=10)` -/
+def LOG : List Value → Except Err α
+  | [a] => bin O (fun x b => lift (logB O x b)) a (.num (.int 10))
+  | [a, b] => bin O (fun x b => lift (logB O x b)) a b
+  | _ => .error .error
+
+/-- `LOG10(number)` = `LOG(number, 10)` -/
+def LOG10 : List Value → Except Err α
+  | [a] => LOG O [a, .num (.int 10)]
+  | _ => .error .error
+
+/-- `POWER(number, power)` -/
+def POWER : List Value → Except Err α
+  | [a, b] => bin O (power O) a b
+  | _ => .error .error
+
+/-- `PI()` -/
+def PI : List Value → Except Err α
+  | [] => .ok O.pi
+  | _ => .error .error
+
+/-- registered name ↦ generic model (RAND / RANDBETWEEN are functions of the random source: below) -/
+def fnTable : List (String × (List Value → Except Err α)) :=
+  [("ABS", ABSf O), ("ACOS", ACOS O), ("ACOSH", ACOSH O), ("ACOT", ACOT O), ("ACOTH", ACOTH O),
+   ("SIN", SIN O), ("SINH", SINH O), ("ASIN", ASIN O), ("ASINH", ASINH O), ("COS", COS O),
+   ("COSH", COSH O), ("COT", COT O), ("TAN", TAN O), ("TANH", TANH O), ("ATAN", ATAN O),
+   ("ATAN2", ATAN2 O), ("ATANH", ATANH O), ("SQRT", SQRT O), ("EXP", EXP O), ("LN", LN O),
+   ("LOG", LOG O), ("LOG10", LOG10 O), ("PI", PI O), ("POWER", POWER O), ("RADIANS", RADIANS O),
+   ("DEGREES", DEGREES O)]
+
+/-- `RAND()`: whatever `random.random()` delivers -/
+def RAND (random : Unit → α) : List Value → Except Err α
+  | [] => .ok (random ())
+  | _ => .error .error
+
+end generic
+
+/-! ## RANDBETWEEN: `random.randint(int(bottom), int(top))` -/
+
+/-- Python `int(x)` of a number: truncation toward zero -/
+def pyInt : Num → Int
+  | .int i => i
+  | .flt q => if q < 0 then -((-q).floor) else q.floor
+
+/-- `RANDBETWEEN(bottom, top)`; `randint a b = none` = `random.randint` raises (empty range) -/
+def RANDBETWEEN (randint : Int → Int → Option Int) : List Value → Except Err Int
+  | [a, b] =>
+    match parseNumber a, parseNumber b with
+    | .ok m, .ok n =>
+      match randint (pyInt m) (pyInt n) with
+      | some r => .ok r
+      | none => .error .error
+    | _, _ => .error .value
+  | _ => .error .error
+
+/-! ## exact results: ABS (keeps ints ints), POWER on ints -/
+
+def numAbs : Num → Num
+  | .int i => .int (if i < 0 then -i else i)
+  | .flt q => .flt (if q < 0 then -q else q)
+
+/-- `ABS(number)`: `abs()` of the parsed number -/
+def ABS : Builtin
+  | [v] =>
+    match parseNumber v with
+    | .error e => .ok (.err e)
+    | .ok n => .ok (.num (numAbs n))
+  | _ => .error .error
+
+/-- does `float(i)` raise OverflowError?  (round-half-even to 53 bits reaches 2^1024) -/
+def intOverflowsFloat (i : Int) : Bool := decide (2 ^ 1024 - 2 ^ 970 ≤ i.natAbs)
+
+/-- `POWER` on two Python ints with a non-negative exponent: the exact int `x ** y`, then
+    `math.isnan(result)` converts it to a float (OverflowError beyond the float range).
+    `none` = not this case. -/
+def powerIntExact (a b : Value) : Option (Except Err Int) :=
+  match parseNumber a, parseNumber b with
+  | .ok (.int x), .ok (.int y) =>
+    if y < 0 then none
+    else if 2 ≤ x.natAbs ∧ 1024 ≤ y then some (.error .error)
+    else
+      let r := x ^ y.toNat
+      some (if intOverflowsFloat r then .error .error else .ok r)
+  | _, _ => none
+
+/-! ## the executable instance: IEEE doubles and libm, with CPython's checks -/
+
+namespace FloatImpl
+
+/-- correctly rounded (half-even) quotient `n / d` of positive naturals as a double -/
+def natDivToFloat (n d : Nat) : Float :=
+  let e0 : Int := (n.log2 : Int) - (d.log2 : Int)
+  let ge : Bool := if e0 ≥ 0 then decide (d * 2 ^ e0.toNat ≤ n) else decide (d ≤ n * 2 ^ (-e0).toNat)
+  let e : Int := if ge then e0 else e0 - 1
+  let u : Int := max (e - 52) (-1074)
+  let num : Nat := if u ≥ 0 then n else n * 2 ^ (-u).toNat
+  let den : Nat := if u ≥ 0 then d * 2 ^ u.toNat else d
+  let q := num / den
+  let r := num % den
+  let m := if 2 * r > den || (2 * r == den && q % 2 == 1) then q + 1 else q
+  (Float.ofNat m).scaleB u
+
+/-- `float()` of an exact rational: round to nearest, ties to even (inf beyond the range) -/
+def ratToFloat (q : Rat) : Float :=
+  if q.num = 0 then 0.0
+  else
+    let f := natDivToFloat q.num.natAbs q.den
+    if q.num < 0 then -f else f
+
+/-- the error convention of CPython's `math_1`: a NaN from a non-NaN argument is a
+    ValueError, an infinity from a finite argument a ValueError / OverflowError -/
+def chk (f : Float → Float) (x : Float) : Option Float :=
+  let r := f x
+  if r.isNaN && !x.isNaN then none
+  else if r.isInf && x.isFinite then none
+  else some r
+
+/-- `math.log` of a float (`m_log`) -/
+def pyLog (x : Float) : Option Float :=
+  if x.isFinite then (if x > 0 then some (Float.log x) else none)
+  else if x.isNaN then some x
+  else if x > 0 then some x else none
+
+/-- `float.__pow__` (`float_pow` of floatobject.c); `none` = ZeroDivisionError, OverflowError,
+    or a negative base with a non-integral exponent (Python 3 returns a complex number) -/
+def pyPow (x y : Float) : Option Float :=
+  if y == 0 then some 1.0
+  else if x.isNaN then some x
+  else if y.isNaN then some (if x == 1.0 then 1.0 else y)
+  else if y.isInf then
+    let ax := x.abs
+    some (if ax == 1.0 then 1.0 else if (y > 0) == (ax > 1.0) then Float.abs y else 0.0)
+  else if x.isInf then some (Float.pow x y)
+  else if x == 0 then (if y < 0 then none else some (Float.pow x y))
+  else if x < 0 && y != y.floor then none
+  else
+    let r := Float.pow x y
+    if r.isInf then none else some r
+
+end FloatImpl
+
+open FloatImpl in
+/-- IEEE doubles with libm and CPython's `math` conventions -/
+def floatOps : ElemOps Float where
+  ofRat := ratToFloat
+  ofInt := fun i => let f := ratToFloat (i : Rat); if f.isInf then none else some f
+  add := (· + ·)
+  sub := (· - ·)
+  mul := (· * ·)
+  neg := fun x => -x
+  abs := Float.abs
+  div := fun x y => if y == 0 then none else some (x / y)
+  isZero := fun x => x == 0
+  isNaN := Float.isNaN
+  pi := Float.ofBits 0x400921FB54442D18
+  e := Float.ofBits 0x4005BF0A8B145769
+  sqrt := chk Float.sqrt
+  log := pyLog
+  exp := chk Float.exp
+  sin := chk Float.sin
+  cos := chk Float.cos
+  tan := chk Float.tan
+  asin := chk Float.asin
+  acos := chk Float.acos
+  atan := chk Float.atan
+  sinh := chk Float.sinh
+  cosh := chk Float.cosh
+  tanh := chk Float.tanh
+  asinh := chk Float.asinh
+  acosh := chk Float.acosh
+  atanh := chk Float.atanh
+  atan2 := fun y x => some (Float.atan2 y x)
+  pow := pyPow
+
+/-- the exact-rational builtins of this family used by `eval` -/
+def table : List (String × Builtin) := [("ABS", ABS)]
 
 end HotXL.Fn.Math
